@@ -651,3 +651,28 @@ impl<'a> CrashWalker<'a> {
         (img, info)
     }
 }
+
+
+// The same simulated medium seen through redb 3.0.0's StorageBackend trait (C19: two
+// implementations alternate on one simulated disk).
+#[cfg(feature = "compat")]
+impl redb3::StorageBackend for SimDisk {
+    fn len(&self) -> Result<u64, io::Error> {
+        <SimDisk as redb::StorageBackend>::len(self)
+    }
+    fn read(&self, offset: u64, out: &mut [u8]) -> Result<(), io::Error> {
+        <SimDisk as redb::StorageBackend>::read(self, offset, out)
+    }
+    fn set_len(&self, len: u64) -> Result<(), io::Error> {
+        <SimDisk as redb::StorageBackend>::set_len(self, len)
+    }
+    fn sync_data(&self) -> Result<(), io::Error> {
+        <SimDisk as redb::StorageBackend>::sync_data(self)
+    }
+    fn write(&self, offset: u64, data: &[u8]) -> Result<(), io::Error> {
+        <SimDisk as redb::StorageBackend>::write(self, offset, data)
+    }
+    fn close(&self) -> Result<(), io::Error> {
+        <SimDisk as redb::StorageBackend>::close(self)
+    }
+}
